@@ -1,5 +1,6 @@
 import AptMirror.Props.C01
 import AptMirror.Props.C09
+import AptMirror.Model.Unpack
 /-!
 # C01 (continued) — the packages named by the published index are all there
 
@@ -220,4 +221,38 @@ theorem C01_sources_pool_complete (root : Path) (flt : Filter) (ign : List Path)
   have hpos : 0 < pf.size.toNat := by omega
   exact hsound hpos pf.path (by simp [Variant.allPaths])
 
+end AptMirror
+
+/-! ## which variant of an index is parsed -/
+
+namespace AptMirror
+namespace Unpack
+
+/-- **C01 (the index that is parsed is the one that was obtained).** The index stage obtains one variant `v` of a group; the
+    skel cleaner, which runs between the index stage and the pool stage, keeps of this group exactly the obtained variant's
+    paths; then whatever older variants a previous run left in skel, the pool stage unpacks and parses `v` - the file whose size
+    this run checked against the Release (C05), not a stale one of higher priority. -/
+theorem C01_unpacked_is_obtained (present : Comp → Bool) (v : Comp) (hv : present v = true) :
+    choice (afterSkelClean present (fun c => c == v)) = some v := by
+  unfold choice afterSkelClean Comp.all
+  have e1 : (Comp.xz == Comp.gz) = false := by decide
+  have e2 : (Comp.xz == Comp.bz2) = false := by decide
+  have e3 : (Comp.xz == Comp.none) = false := by decide
+  have e4 : (Comp.gz == Comp.bz2) = false := by decide
+  have e5 : (Comp.gz == Comp.none) = false := by decide
+  have e6 : (Comp.bz2 == Comp.none) = false := by decide
+  cases v <;> simp [List.find?, hv, e1, e2, e3, e4, e5, e6]
+
+/-- without the skel clean in between (the reordering that independent reviewers re-invented five times as a "harmless"
+    change), a stale `.xz` of an earlier run wins over the `.gz` that was obtained -/
+theorem C01_legacy_stale_variant_counterexample :
+    choice (fun c => c == .xz || c == .gz) = some .xz ∧ choice (afterSkelClean (fun c => c == .xz || c == .gz) (fun c => c == .gz)) = some .gz := by
+  decide
+
+/-- nothing obtained, nothing parsed: after the clean no variant of a group that was not obtained is left -/
+theorem C01_unobtained_not_parsed (present : Comp → Bool) : choice (afterSkelClean present (fun _ => false)) = none := by
+  unfold choice afterSkelClean Comp.all
+  simp [List.find?]
+
+end Unpack
 end AptMirror
